@@ -126,6 +126,7 @@ type Step struct {
 	Task int    `json:"task,omitempty"` // scheduled programs: which task runs the step
 	DB   int    `json:"db,omitempty"`   // scheduled programs: which database
 	Mode int    `json:"mode,omitempty"` // open with another index mode (C22)
+	Seg  int64  `json:"seg,omitempty"`  // reopen: open with this SegmentSize from now on (C19)
 	// After lists calls made on the transaction handle after the transaction
 	// has finished (committed, rolled back or failed): each must return an
 	// error and change nothing (C12).
@@ -150,6 +151,10 @@ func (s Step) String() string {
 		return fmt.Sprintf("#%d%s %s[%s]%s", s.ID, who, s.K, strings.Join(ops, "; "), e)
 	case SAdvance:
 		return fmt.Sprintf("#%d advance %dns", s.ID, s.D)
+	case SReopen:
+		if s.Seg > 0 {
+			return fmt.Sprintf("#%d reopen with SegmentSize=%d", s.ID, s.Seg)
+		}
 	}
 	return fmt.Sprintf("#%d %s", s.ID, s.K)
 }
